@@ -56,8 +56,9 @@ def setup(tier, build=True):
 
 def gen_case(rng, tier, index):
     iface = rng.choice(["sync", "conc", "conc", "conc", "async", "rust",
-                        "tfdata" if rng.random() < 0.3 else "conc"])
-    fmts = {"async": ("fb", "npz"), "rust": ("fb",)}.get(
+                        "tfdata" if rng.random() < 0.6 else "conc"])
+    fmts = {"async": ("fb", "npz"), "rust": ("fb",),
+            "tfdata": ("fb", "npz", "tfrec", "tfrec")}.get(
         iface, ("fb", "fb", "npz", "npz", "tfrec"))
     comp = rng.choice(dsgen.RUST_COMPRESSIONS) if iface == "rust" else None
     hist = eread.read_hist(rng, formats=fmts, compression=comp,
@@ -69,6 +70,9 @@ def gen_case(rng, tier, index):
                         "bytes_seed": rng.getrandbits(32)}
                        for _ in range(rng.choice([1, 1, 1, 2]))],
             "shuffle": rng.choice([0, 0, 2, 50]),
+            # the default, endless stream: the error must arrive within a
+            # bounded prefix (three epochs' worth of examples)
+            "repeat": rng.random() < 0.3,
             "fp_sel": rng.choice([1, 2, 3, "s", "s+2"]),
             "seed": rng.getrandbits(32), "sched_seed": rng.getrandbits(48),
             "policy": rng.choice(S.POLICIES),
@@ -162,17 +166,27 @@ def run_case(case):
                     "probes": dict(probes, fault_not_effective=1)}
         fp = {"s": max(1, n), "s+2": n + 2}.get(case["fp_sel"],
                                                 case["fp_sel"])
-        opts = {"repeat": False, "shuffle": case["shuffle"], "fp": fp}
+        repeat = bool(case.get("repeat"))
+        opts = {"repeat": repeat, "shuffle": case["shuffle"], "fp": fp}
+        total = len(env.model.ids(split))
+        bound = 3 * total + case["shuffle"] + 10 if repeat else None
+        if repeat:
+            probes["repeating_stream"] += 1
         random.seed(case["seed"])
         ds = env.open()
         ctx = (f"{iface} {st['fmt']}/{st['compression']} shards={n} damaged="
                f"{hit} kinds={[d['kind'] for d in case['damage']]} "
-               f"shuffle={case['shuffle']} fp={fp}")
+               f"shuffle={case['shuffle']} fp={fp}" +
+               (f" repeat=True (prefix of {bound} examples = 3 epochs)"
+                if repeat else ""))
         key = {"engine": "E-read", "iface": iface}
         if iface == "rust":
             def child():
-                items = [dsgen.canon(e, st["attrs"])[0] for e in
-                         eread.make_iter(ds, "rust", split, opts)]
+                items = []
+                for e in eread.make_iter(ds, "rust", split, opts):
+                    items.append(dsgen.canon(e, st["attrs"])[0])
+                    if bound is not None and len(items) >= bound:
+                        break
                 return len(items)
 
             with env.fs.suspended():
@@ -194,7 +208,8 @@ def run_case(case):
         else:
             def go():
                 return eread.run_reader(
-                    env, ds, iface, split, opts, seed=case["sched_seed"],
+                    env, ds, iface, split, opts, k=bound,
+                    seed=case["sched_seed"],
                     policy=case["policy"], policy_param=case["policy_param"],
                     choices=case.get("choices"), max_steps=200000,
                     line_prob=0.3 if case["seed"] & 2 else 0.0)
@@ -284,7 +299,8 @@ def shrink(case):
 def reach(agg):
     need = []
     p, f = agg["probes"], agg["faults"]
-    for name in ("iface_sync", "iface_conc", "iface_async", "shuffled",
+    for name in ("repeating_stream", "iface_sync", "iface_conc",
+                 "iface_async", "shuffled",
                  "unshuffled", "damaged_first", "damaged_middle",
                  "damaged_last", "error_delivered"):
         if not p.get(name):
